@@ -2,8 +2,8 @@
 (* E3 for C25: log listings recorded from the real log generator judged by the laws of History.  Rows
      [c |-> [par, t], kind, files |-> <<ver, ...>>, ob |-> [ms, logs]]
    with ms / listing rows as tuples <<r, n, d>> and requests as tuples <<dir, levels, limit, a, b, file, deltas>>.
-   Written back: failed laws (verdict); drift = a file listing whose mainline revisions differ from the content
-   model's prediction, or a range listing that is not the corresponding slice of the full listing. *)
+   Written back: failed laws (verdict); badfile = the file requests whose mainline differs from the other algorithm's;
+   drift = a file listing whose mainline revisions differ from the content model's prediction, or a range listing that is not the corresponding slice of the full listing. *)
 EXTENDS History, TLC, Json, IOUtils, SequencesExt
 VARIABLE i
 Init == i = 0
@@ -17,14 +17,15 @@ Drift(P, t, files, ob) ==
     {k \in DOMAIN ob.logs :
         LET q == ob.logs[k].q
             rows == ob.logs[k].rows
-        IN \/ /\ q.file # 0 /\ q.dir = "reverse"
-              /\ [j \in DOMAIN MainOnly(rows) |-> MainOnly(rows)[j].r] # FileMainline(P, t, files[q.file])
+            want == FileMainline(P, t, files[q.file])
+        IN \/ /\ q.file # 0
+              /\ [j \in DOMAIN MainOnly(rows) |-> MainOnly(rows)[j].r] # (IF q.dir = "reverse" THEN want ELSE RevSeq(want))
            \/ /\ q.file = 0 /\ q.a # 0 /\ q.levels = 0 /\ q.limit = 0 /\ q.dir = "reverse"
               /\ rows # Slice(FullRev(ob), RangeRevs(P, t, q.a, q.b))}
 Judge(row) ==
     LET ob == ObOf(row)
-    IN [failed |-> SetToSeq(C25Failed(row.c.par, row.c.t, ob)), drift |-> SetToSeq(Drift(row.c.par, row.c.t, row.files, ob))]
-Bad(R) == SelectSeq([k \in 1..Len(R) |-> LET j == Judge(R[k]) IN [row |-> k, failed |-> j.failed, drift |-> j.drift]],
+    IN [failed |-> SetToSeq(C25Failed(row.c.par, row.c.t, ob)), badfile |-> SetToSeq(BadFile(row.c.par, row.c.t, ob)), drift |-> SetToSeq(Drift(row.c.par, row.c.t, row.files, ob))]
+Bad(R) == SelectSeq([k \in 1..Len(R) |-> LET j == Judge(R[k]) IN [row |-> k, failed |-> j.failed, badfile |-> j.badfile, drift |-> j.drift]],
                     LAMBDA r : r.failed # <<>> \/ r.drift # <<>>)
 ASSUME LET R == JsonDeserialize(IOEnv.VF_IN) IN JsonSerialize(IOEnv.VF_OUT, [n |-> Len(R), bad |-> Bad(R)])
 =============================================================================
